@@ -106,6 +106,17 @@ def histories(tier):
         variants.append([{"op": "handle", "id": "h0", "module": f"m{b}", "name": dn},
                          {"op": "globals", "id": "g0", "handle": "h0"},
                          {"op": "module_with_globals", "id": "mw", "globals": "g0", "src": "V = [GV, 1]\ndef vf():\n    return GV\n", "loads": []}])
+        # forwarding frozen heaps (OwnedFrozen::build + add_to_frozen_heap): a heap that allocates nothing (or one wrapper)
+        # and only references the handle's heap; a forward of a forward; a mapped handle of a forward
+        variants.append([{"op": "handle", "id": "h0", "module": f"m{b}", "name": dn},
+                         {"op": "forward", "id": "f1", "from": "h0"}])
+        if not q or len(edges) <= 2:
+            variants.append([{"op": "handle", "id": "h0", "module": f"m{b}", "name": dn},
+                             {"op": "forward", "id": "f1", "from": "h0"},
+                             {"op": "forward", "id": "f2", "from": "f1"}])
+            variants.append([{"op": "handle", "id": "h0", "module": f"m{b}", "name": dn},
+                             {"op": "forward_wrap", "id": "f1", "from": "h0"},
+                             {"op": "map", "id": "f2", "from": "f1", "path": [1]}])
         for extra in variants:
             objs = mods + pre_handles + [e["id"] for e in extra]
             full = build + extra
